@@ -276,6 +276,7 @@ class Campaign:
 
     # -------------------------------------------------------------- reporting
     def finish(self, level="model_checking", extra_cov=None, assumptions=None, rule=None):
+        level = getattr(self, "level", level)
         wall = time.time() - self.t0
         rc = 0
         seen = set()
